@@ -1576,10 +1576,11 @@ class NMFUError(Exception):
     @classmethod
     def _generate_whitespace_marker(cls, line, column):
         marker = ""
+        source_line = ProgramData.get_source_line(line) or "" # (line and column need not come from the same object: stay inside the line)
         for i in range(column):
             if i == column - 1:
                 marker += "^"
-            elif ProgramData.get_source_line(line)[i] == "\t":
+            elif i < len(source_line) and source_line[i] == "\t":
                 marker += "\t"
             else:
                 marker += " "
